@@ -32,12 +32,13 @@ def conservation_cases(seed=0, reduced=False):
     bad = []
     n = 0
     with tempfile.TemporaryDirectory() as td:
-        for ci, (n_term, screening, cur_units) in enumerate(((2, False, "uA"), (3, False, "uA"), (2, True, "uA"), (2, False, "mA"), (3, False, "nA"), (3, False, "switch"), (2, False, "twice"))):
-            if reduced and ci not in (1, 3, 5, 6):
+        for ci, (n_term, screening, cur_units) in enumerate(((2, False, "uA"), (3, False, "uA"), (2, True, "uA"), (2, False, "mA"), (3, False, "nA"), (3, False, "switch"), (2, False, "twice"), (3, False, "shared"))):
+            if reduced and ci not in (1, 3, 5, 6, 7):
                 continue
             switching = cur_units == "switch"
             twice = cur_units == "twice"          # one TDGLSolver instance solved twice (public API): the second run injects the requested current too
-            cur_units = "uA" if (switching or twice) else cur_units
+            shared = cur_units == "shared"        # currents given as a function of time that hands back ONE dict object at every call (the caller's object)
+            cur_units = "uA" if (switching or twice or shared) else cur_units
             dev = make_device(n_term=n_term)
             mesh = dev.mesh
             I = {"source": 3.0, "drain": -3.0} if n_term == 2 else {"source": 2.0, "drain": -0.5, "top": -1.5}
@@ -53,6 +54,12 @@ def conservation_cases(seed=0, reduced=False):
                     solver_ = tdgl.TDGLSolver(dev, opts, applied_vector_potential=0.1, terminal_currents=Iu)
                     solver_.solve()
                     sol = solver_.solve()
+                elif shared:
+                    mine = dict(Iu)
+                    sol = tdgl.solve(dev, opts, applied_vector_potential=0.1, terminal_currents=lambda t: mine)
+                    n += 1
+                    if mine != Iu:
+                        bad.append(dict(what="the dict handed out by the caller's current function was written by the solver", requested=Iu, now={k_: float(v_) for k_, v_ in mine.items()}))
                 else:
                     sol = tdgl.solve(dev, opts, applied_vector_potential=0.1, terminal_currents=(Ifun if switching else Iu))
             except Exception as e:  # noqa
